@@ -120,4 +120,15 @@ def optStrText : Option Str → Str
 def setLabel (store : List Res) (sid : Nat) (f : OverlapResult → OverlapResult) : List Res :=
   updRes store sid (f (getRes store sid))
 
+/-- one element of a natural-sort key: a number (odd positions of `re.split`'s result) or a text (even positions) -/
+inductive KeyTok where
+  | num (v : Int)
+  | txt (s : Str)
+  deriving DecidableEq, Repr
+
+/-- `re.split(r"(IV|I{1,3}|\d+)", name)` as the flat list Python returns: text, match, text, match, …, text — from the model's tokeniser `natTokens` -/
+def natSplitList (name : Str) : List Str :=
+  let t := natTokens name
+  t.first :: t.rest.flatMap (fun p => [p.1, p.2])
+
 end AgpTpf.PyRt
